@@ -61,18 +61,22 @@ def check_b(doc):
     if soup is None:
         return [('generator', 'mini_doc does not parse: %r' % doc[:80], doc)]
     n = 0
-    for m in CLOSERS.finditer(doc):
+    spans = [(m.start(), m.end()) for m in CLOSERS.finditer(doc)]
+    # the closing brace of an `\\end{name}` is a closing brace as well
+    spans += [(m.end() - 1, m.end()) for m in re.finditer(r'\\end\{[^{}]*\}', doc)]
+    for a, b in sorted(set(spans)):
+        piece = doc[a:b]
         # a `]` that closes no argument is plain text: only brackets that belong to an argument
-        if m.group() == ']' and not _is_arg_bracket(doc, m.start()):
+        if piece == ']' and not _is_arg_bracket(doc, a):
             continue
-        d = doc[:m.start()] + doc[m.end():]
+        d = doc[:a] + doc[b:]
         n += 1
         l0, s0, _ = common.impl_parse(d, 0)
         l1, s1, _ = common.impl_parse(d, 1)
         if s0 is not None:
-            bad.append(('lost-closer-accepted', 'strict parse succeeds without %r at %d' % (m.group(), m.start()), d))
+            bad.append(('lost-closer-accepted', 'strict parse succeeds without %r at %d' % (piece, a), d))
         elif s1 is None:
-            bad.append(('tolerant-rejects', 'tolerant parse fails (%s) without %r at %d' % (l1, m.group(), m.start()), d))
+            bad.append(('tolerant-rejects', 'tolerant parse fails (%s) without %r at %d' % (l1, piece, a), d))
     return bad, n
 
 
